@@ -282,7 +282,14 @@ class GuardAnalysis:
                         sites.add(c.bb)
             for bb, s in cf.stmts():
                 if s.get("k") == "closure" and s.get("closure") == f.path:
-                    sites.add(bb)
+                    # where the closure *runs*: if its value is invoked in this very function (`body()` of a bracket helper that was
+                    # inlined here), the invocation is the site; otherwise (handed to an adaptor) the creation point stands for it
+                    fl = cf.flows_from({s["d"][0]}, through_calls=False)
+                    inv = [c for c in cf.live_calls() if c.name in ("call_once", "call_mut", "call") and c.args and "p" in c.args[0] and c.args[0]["p"][0] in fl]
+                    if inv:
+                        sites |= set(c.bb for c in inv)
+                    else:
+                        sites.add(bb)
                 for o in s.get("o", []):
                     cc = o.get("c") if isinstance(o, dict) else None
                     if cc and cc.get("fn") == f.path:
